@@ -47,6 +47,9 @@ type gen struct {
 	// busy-provider mode (drawn per run where the bias table has "busy"): one provider collects several
 	// active leases at a time - deployments, its bids and leases are favoured, closing is rare
 	busy *Actor
+	// spread mode (the opposite): the groups of a deployment are let to different providers, so that one
+	// escrow account pays several payees
+	spread bool
 }
 
 func (g *gen) pick(list []string, label string) (string, bool) {
@@ -216,7 +219,11 @@ func (g *gen) createDeployment() *Op {
 	r := g.w.R
 	t := g.actor("tenant", "cd.tenant")
 	id := dtypes.DeploymentID{Owner: t.Bech, DSeq: g.dseqFor(t.Bech, r.Bool(8, "cd.dup"))}
-	ng := 1 + r.Weighted([]int{6, 3, 1}, "cd.ngroups")
+	ngw := []int{6, 3, 1}
+	if g.busy != nil || g.bias["cd.multigroup"] > 0 {
+		ngw = []int{3, 4, 3} // several groups per deployment: several payments on one escrow account
+	}
+	ng := 1 + r.Weighted(ngw, "cd.ngroups")
 	var groups []dtypes.GroupSpec
 	for i := 0; i < ng; i++ {
 		groups = append(groups, g.groupSpec(fmt.Sprintf("g%d", i)))
@@ -361,6 +368,24 @@ func (g *gen) createBid() *Op {
 	if r.Bool(4+g.bias["cb.selfbid"], "cb.selfbid") {
 		p = g.w.ActorByAddr(o.Owner)
 		selfbid = p != nil
+	}
+	if p == nil && g.spread {
+		// a provider that holds no bid or lease in this deployment yet
+		taken := map[string]bool{}
+		for _, b := range g.s.Bids {
+			if b.BidID.Owner == o.Owner && b.BidID.DSeq == o.DSeq && (b.State == mtypes.BidOpen || b.State == mtypes.BidActive) {
+				taken[b.BidID.Provider] = true
+			}
+		}
+		var free []*Actor
+		for _, a := range g.w.ActorsOf("provider") {
+			if !taken[a.Bech] {
+				free = append(free, a)
+			}
+		}
+		if len(free) > 0 {
+			p = free[r.Choose(len(free), "cb.spread")]
+		}
 	}
 	if p == nil {
 		p = g.actor("provider", "cb.prov")
@@ -743,8 +768,8 @@ func (g *gen) weights(base map[string]int) []int {
 		}
 		if g.busy != nil {
 			switch k {
-			case "CloseDeployment", "CloseGroup", "PauseGroup", "CloseLease", "CloseBid":
-				wt = (wt + 4) / 5
+			case "CloseDeployment", "CloseGroup", "PauseGroup":
+				wt = (wt + 4) / 5 // leases end one at a time (and are re-let), deployments live long
 			case "CreateDeployment":
 				if nDepActive < 4 {
 					wt *= 2
